@@ -10,6 +10,7 @@ PID = "C11"
 ITER = ("call", "<Vec<Node> as iter::IntoIterator>::into_iter", ("C0",))
 LEN = ("call", "Vec::len", ("C0",))
 AGG = {"eval_f64": ["Min", "Max", "Avg", "Med"], "eval_i64": ["Min", "Max", "Avg", "Med", "Gcd", "Lcm"], "eval_decimal": ["Min", "Max", "Avg", "Med"], "eval_number": ["Min", "Max", "Avg", "Med"]}
+SURFACE = {"Min": "min(", "Max": "max(", "Avg": "avg(", "Med": "med(", "Gcd": "gcd(", "Lcm": "lcm("}
 # identity elements of min / max per value type (bits as printed by the extractor)
 MIN_SEEDS = {"eval_f64": [("const", "core::f64::<impl f64>::INFINITY", "9218868437227405312"), ("const", "std::f64::INFINITY", "9218868437227405312")],
              "eval_i64": [("const", "core::num::<impl i64>::MAX", "9223372036854775807"), ("const", "std::i64::MAX", "9223372036854775807")],
@@ -54,9 +55,12 @@ def main(tier):
         W = where(m, "::ast::eval")
         arms = m.tb.eval_arms()
         for ctor in names:
-            a = arms.get(ctor)
+            # the aggregate is identified by its documented name; the Node constructor it builds may be called anything
+            r_, err_ = chain.function_chain(m, SURFACE[ctor])
+            real = r_[0] if r_ else ctor
+            a = arms.get(real)
             if a is None:
-                run.ob(False, "arm|%s|%s" % (ev, ctor), "C11 aggregate arm present", W, "no arm %s" % ctor)
+                run.ob(False, "arm|%s|%s" % (ev, ctor), "C11 aggregate arm present", W, "no arm for %s (%s)" % (SURFACE[ctor], err_))
                 continue
             t = a["term"]
             key = "%s|%s" % (ev, ctor)
